@@ -158,6 +158,7 @@ class Config:
                  "  Devs <- G_Devs", "  Pulses <- G_Pulses", "  PF <- G_PF", "  SP <- G_SP",
                  "  CF <- G_CF", "  Calls <- G_Calls", "  InitCalls <- G_InitCalls",
                  f"  PhaseMod = {self.phase_mod}", f"  PhaseTol = {self.ptol}",
+                 f"  NAssign = {len(getattr(self, 'assignments', []))}",
                  f"  MaxDepth = {self.max_depth if depth is None else depth}"]
         for inv in invariants:
             lines.append(f"INVARIANT {inv}")
@@ -623,6 +624,73 @@ def render_xy(depth=3):
     return c
 
 
+def template(depth=3):
+    """C08 / C13: parametrized sequences.  Calls with par=True take their numeric argument from
+    variable expressions; alt[a] is the concrete call for assignment a."""
+    devs = [{"nq": 3, "chs": [
+        {"kind": "ryd", "addr": "G", "clock": 4, "minDur": 8, "bw": 80.0,
+         "eom": {"bw": 40.0, "controlled_beams": ("BLUE", "RED")}},
+        {"kind": "ryd", "addr": "G", "clock": 2, "minDur": 4},
+        {"kind": "ram", "addr": "L", "clock": 4, "minDur": 4, "bw": 160.0, "minRet": 20, "fixRet": 8, "maxTg": 1},
+        {"kind": "dmm", "clock": 4, "minDur": 4},
+    ]}]
+    assignments = [{"x": 8, "y": 1.0}, {"x": 12, "y": 0.5}, {"x": 22, "y": 2.0}]
+    pulses = [Pulse.ConstantPulse(16, 1.0, 0.0, 0.0),
+              Pulse(RampWaveform(12, 0.0, 2.0), ConstantWaveform(12, -1.0), 0.5, post_phase_shift=0.5)]
+    setpoints = [(1.0, 0.0, 0.0)]
+    calls = [{"op": "declare", "nm": 1, "cid": 1, "it": 0}, {"op": "declare", "nm": 2, "cid": 2, "it": 0},
+             {"op": "declare", "nm": 3, "cid": 3, "it": 1}]
+    P = "min-delay"
+    calls += [
+        {"op": "add", "nm": 1, "p": 1, "proto": P}, {"op": "add", "nm": 2, "p": 2, "proto": "no-delay"},
+        {"op": "add", "nm": 3, "p": 1, "proto": "wait-for-all"},
+        {"op": "delay", "nm": 1, "d": 16, "rest": False}, {"op": "delay", "nm": 2, "d": 3, "rest": True},
+        {"op": "target", "nm": 3, "tg": 2}, {"op": "align", "nms": [1, 2], "rest": True},
+        {"op": "pshift", "phi": 1, "tg": 1, "basis": "ground-rydberg"},
+        {"op": "measure", "basis": "ground-rydberg"}, {"op": "getdur", "nm": 1},
+        {"op": "est", "nm": 1, "p": 1, "proto": P},
+        {"op": "eom_on", "nm": 1, "sp": 1, "cpd": False},
+        {"op": "eom_add", "nm": 1, "dur": 16, "ph": 0, "pps": 0, "proto": P, "cpd": False},
+        {"op": "eom_off", "nm": 1, "cpd": False},
+        {"op": "detmap", "mp": [2, 3], "w2": [2, 1, 0], "cid": 4},
+    ]
+    par_real = {}
+
+    def par(base, key, fn, to_call):
+        """base: call record without the variable argument; fn(V) -> the real argument;
+        to_call(value) -> the fields of the concrete call for an evaluated argument."""
+        pk = len(par_real) + 1
+        par_real[pk] = fn
+        alt = []
+        for a in assignments:
+            val = fn(a)
+            alt.append({**base, **to_call(val)})
+        calls.append({**base, **to_call(fn(assignments[0])), "par": True, "pk": pk, "alt": alt})
+
+    def pulse_idx(pl):
+        pulses.append(pl)
+        return {"p": len(pulses)}
+
+    par({"op": "add", "nm": 1, "proto": P}, "p", lambda V: Pulse.ConstantPulse(V["x"], V["y"], 0.0, 0.0), pulse_idx)
+    par({"op": "add", "nm": 2, "proto": "no-delay"}, "p",
+        lambda V: Pulse.ConstantPulse(2 * V["x"] + 4, 1.0, -1.0 * V["y"], 0.5), pulse_idx)
+    par({"op": "add", "nm": 3, "proto": P}, "p",
+        lambda V: Pulse.ConstantAmplitude(V["y"] * 2, RampWaveform(V["x"], 0.0, 1.0), 0.0, post_phase_shift=0.5),
+        pulse_idx)
+    par({"op": "delay", "nm": 1, "rest": False}, "d", lambda V: V["x"], lambda v: {"d": int(v)})
+    par({"op": "delay", "nm": 3, "rest": True}, "d", lambda V: V["x"] // 2 + 1, lambda v: {"d": int(v)})
+    par({"op": "target", "nm": 3}, "tg", lambda V: (V["x"] // 4) % 3, lambda v: {"tg": 1 << int(v)})
+    par({"op": "pshift", "tg": 2, "basis": "digital"}, "phi", lambda V: V["y"] * 1.0,
+        lambda v: {"phi": int(round(float(v) / 0.5))})
+    par({"op": "eom_add", "nm": 1, "ph": 0, "pps": 0, "proto": P, "cpd": False}, "dur",
+        lambda V: 2 * V["x"], lambda v: {"dur": int(v)})
+    c = Config("template", devs, pulses, calls, [1, 2], depth, setpoints=setpoints, cf_max=40)
+    c.variables = [("x", int, None), ("y", float, None)]
+    c.assignments = assignments
+    c.par_real = par_real
+    return c
+
+
 def instances(name, tier):
     """The configurations of family `name` for a tier (each with a unique .name tag)."""
     quick = tier != "thorough"
@@ -652,6 +720,10 @@ def instances(name, tier):
         a = fine(4)
         a.name = "fine-d4"
         return [a, b]
+    if name == "template":
+        c = template(3 if quick else 4)
+        c.name = f"template-d{c.max_depth}"
+        return [c]
     if name == "ham":
         out = []
         for c in instances("render", tier):
